@@ -588,6 +588,12 @@ impl<'a> Gen<'a> {
                 vec![self.safe(s)]
             }
             "integer" => {
+                if self.p.arrivals && self.rng.chance(1, 12) {
+                    // bounded random sampling between two registers (fails for an empty / inverted range)
+                    let w: Vec<u32> = (0..self.rng.range(0, 12)).map(|_| self.rng.word32()).collect();
+                    let s = Step::new(&format!("{pre}.rand")).i("f", self.rng.below(8) as i128).i("d", d).i("a", a).i("b", b).l32("v", &w);
+                    return vec![self.safe(s)];
+                }
                 let o = if u { *self.rng.pick(&U_INT_OPS) } else { *self.rng.pick(&I_INT_OPS) };
                 let s = Step::new(&format!("{pre}.int")).s("o", o).i("d", d).i("a", a).i("b", b);
                 vec![self.safe(s)]
